@@ -24,7 +24,6 @@ Variable rank : key -> nat.
 Variable ord : key -> list rkind.
 Hypothesis Hrank : wf_rank rules rank.
 Hypothesis Hdisc : forall k, r_disc (rules k) = [].
-Hypothesis Hsingle : forall k, r_single (rules k) = [].
 Hypothesis Hord : forall k, In RReq (ord k).
 Notation cvK := (cvK rules env F rank).
 Notation bkK := (bkK rules env F rank).
@@ -48,7 +47,7 @@ Lemma BInv_scan_rule root c fi fs s k : Inv rules c s -> BInv root None (unpop f
 Proof.
   intros HI HB Hfs Hpe. pose proof (sreq_scanning_unpop rules c fi fs s HI Hfs) as Hss.
   pose proof HB as (HT & HC & HS).
-  destruct (scan_rule_gen rules env s k (b_ns _ _ _ HC k) (b_nc _ _ _ HC k)) as (b & s1 & ri1 & Esc & RI & E1 & E2 & E3 & E4 & E5 & E6 & E7 & Hout).
+  destruct (scan_rule_gen rules env s k (b_nc _ _ _ HC k)) as (b & s1 & ri1 & Esc & RI & E1 & E2 & E3 & E4 & E5 & E6 & E7 & Hout).
   exists b, s1. split; [exact Esc|].
   set (su := unpop fi fs s) in *. set (su1 := unpop fi fs s1).
   assert (Hsame : ri1 = rinfo_of s k -> is_toscan s1 = is_toscan s -> BInv root (if b then None else Some k) su1).
@@ -56,12 +55,15 @@ Proof.
     { apply (BInv_frame rules env F rank root None su su1); auto; unfold su, su1, unpop; autorewrite with iv; try congruence.
       intros k'. change (rinfo_of (upd_toscan (upd_inreq s1 _) _) k') with (rinfo_of s1 k'). rewrite RI. destruct (N.eqb k' k) eqn:E; auto. apply N.eqb_eq in E. now subst. }
     destruct HBf as (A1 & A2 & A3). split; [|split]; auto. now apply BS_weaken. }
-  assert (Hre : forall kd', ri1 = ri_with_kind kd' (rinfo_of s k) -> is_scanned s k = false -> kind_of s k <> KScanning ->
+  assert (Hre : forall kd', ri1 = ri_with_kind kd' (ri_clean_single (rinfo_of s k)) -> is_scanned s k = false -> kind_of s k <> KScanning ->
             (forall rq, In rq (is_toscan su1) <-> (kd' = KScanning /\ rq = mkSReq k 0%nat None false false) \/ In rq (is_toscan su)) ->
-            (kd' = KNeedsToRun \/ (kd' = KDoesNotNeedToRun /\ bAt su k <> 0 /\ valid rules env k (res_of su k) = true /\ deps su k = [] /\ pending_for su k) \/
+            (kd' = KNeedsToRun \/ (kd' = KDoesNotNeedToRun /\ bAt su k <> 0 /\ valid rules env k (res_of su k) = true /\ drop_single (deps su k) = [] /\ pending_for su k) \/
              (kd' = KScanning /\ bAt su k <> 0 /\ valid rules env k (res_of su k) = true /\ (if b then None else Some k) = Some k)) ->
             BInv root (if b then None else Some k) su1).
-  { intros kd' -> Hsc Hns Hts Hcase. apply (BInv_rekind rules env F rank Hrank Hdisc root _ su su1 k kd'); auto; unfold su, su1, unpop; autorewrite with iv; try congruence. }
+  { intros kd' -> Hsc Hns Hts Hcase. apply (BInv_rekind rules env F rank Hrank Hdisc root _ su su1 k kd'); auto; unfold su, su1, unpop; autorewrite with iv; try congruence.
+    unfold task_of. autorewrite with iv. destruct (aget (is_tasks s) k) eqn:Eg; auto. exfalso.
+    assert (Hex : aget (is_tasks s) k <> None) by congruence. apply (t_tk c s (proj1 (proj2 HI))) in Hex.
+    destruct (unscanned_not_curk s k Hsc Hns) as (_ & [I1 I2] & _). unfold is_in_progress in Hex. destruct (kind_of s k); try discriminate; contradiction. }
   destruct Hout as [(-> & Hsc & -> & Ets)|[(-> & Hk & -> & Ets)|[(-> & Hsc & Hns & -> & Ets)|[(-> & Hsc & Hns & Hb & Hv & Hd & -> & Ets)|(-> & Hsc & Hns & Hb & Hv & Hd & -> & Ets)]]]].
   - split; [now apply Hsame|]. discriminate.
   - split; [now apply Hsame|]. intros _ H. contradiction.
@@ -93,6 +95,8 @@ Proof.
   assert (Hst : forall k', stored su1 k' = stored su k') by (intros k'; unfold stored, res_of; rewrite RI; destruct (N.eqb k' k) eqn:E; [apply N.eqb_eq in E; subst|]; reflexivity).
   assert (Hca : forall k', cAt su1 k' = cAt su k') by (intros k'; unfold cAt, res_of; rewrite RI; destruct (N.eqb k' k) eqn:E; [apply N.eqb_eq in E; subst|]; reflexivity).
   assert (Hdp : forall k', deps su1 k' = deps su k') by (intros k'; unfold deps, res_of; rewrite RI; destruct (N.eqb k' k) eqn:E; [apply N.eqb_eq in E; subst|]; reflexivity).
+  assert (HdpC : forall k', deps su1 k' = deps su k' \/ (deps su1 k' = drop_single (deps su k') /\ ~ curk su1 k' /\ bAt su1 k' = bAt su k')) by (intros; left; apply Hdp).
+  assert (HdpS : forall k', kind_of su k' = KScanning \/ kind_of su k' = KDoesNotNeedToRun -> deps su1 k' = deps su k') by (intros; apply Hdp).
   assert (Hsg : forall k', res_sig (res_of su1 k') = res_sig (res_of su k')) by (intros k'; unfold res_of; rewrite RI; destruct (N.eqb k' k) eqn:E; [apply N.eqb_eq in E; subst|]; reflexivity).
   assert (Hba : forall k', bAt su1 k' = if N.eqb k' k then is_epoch su else bAt su k') by (intros k'; unfold bAt, res_of; rewrite RI; now destruct (N.eqb k' k)).
   assert (HL : forall k', ri_paused (rinfo_of su1 k') = ri_paused (rinfo_of su k') /\ ri_deferred (rinfo_of su1 k') = ri_deferred (rinfo_of su k') /\
@@ -121,7 +125,7 @@ Proof.
     + intros k'. unfold idle. rewrite HK. destruct (N.eqb k' k) eqn:E; auto. apply N.eqb_eq in E. subst k'. rewrite Hk. intros _. split; discriminate.
     + intros k'. rewrite Hba. destruct (N.eqb k' k) eqn:E.
       * apply N.eqb_eq in E. subst k'. right. split; auto. split; [now rewrite HK, N.eqb_refl|]. split; [unfold idle; rewrite Hk; split; discriminate|].
-        split; auto. split; [intros v' Hv'; rewrite Hv in Hv'; inversion Hv'; now subst|]. intros d Hd. now apply Hc1, Hdc.
+        split; auto. split; [apply Hdp|]. split; [intros v' Hv'; rewrite Hv in Hv'; inversion Hv'; now subst|]. intros d Hd. now apply Hc1, Hdc.
       * left. split; auto. intros H. destruct (Hc2 k' H) as [->|H']; auto. rewrite N.eqb_refl in E. discriminate.
   - apply (BS_kinds rules env F rank None None su su1 HS); auto.
     + intros k' Hks. rewrite Hba. destruct (N.eqb k' k) eqn:E; auto. apply N.eqb_eq in E. subst k'. congruence.
@@ -176,12 +180,13 @@ Proof.
   - rewrite VR, A1, R1, N.eqb_refl. reflexivity.
 Qed.
 
-Lemma in_group_reqs_single k rq : In rq (flat_map (group_reqs rules k) (ord k)) -> iq_single rq = false.
+Lemma in_group_reqs_used k rq : In rq (flat_map (group_reqs rules k) (ord k)) -> iq_order rq = false -> used rules k (iq_slot rq) -> iq_single rq = false.
 Proof.
-  intros H. apply in_flat_map in H. destruct H as (c & _ & H). destruct c; cbn [group_reqs] in H.
+  intros H Hor Hu. apply in_flat_map in H. destruct H as (c & _ & H). destruct c; cbn [group_reqs] in H.
   - destruct (mk_reqs_inv _ _ _ _ _ H) as (j & x & Hj & ->). reflexivity.
-  - rewrite Hsingle in H. destruct H.
-  - unfold mk_follows in H. apply in_map_iff in H. destruct H as (x & <- & _). reflexivity.
+  - destruct (mk_reqs_inv _ _ _ _ _ H) as (j & x & Hj & ->). cbn [iq_slot] in Hu. exfalso.
+    assert (Hlt : (j < n2 k)%nat) by (apply nth_error_Some; unfold ImplVal1.n2; congruence). unfold used, ImplVal1.n1, ImplVal1.n2 in *. lia.
+  - unfold mk_follows in H. apply in_map_iff in H. destruct H as (x & <- & _). discriminate.
 Qed.
 
 (* demandRule creates the task of a rule that needs to run *)
@@ -221,7 +226,6 @@ Proof.
     destruct (N.eq_dec t0 k) as [->|E].
     - rewrite Hnew in Hz. inversion Hz. subst z. destruct Hin.
     - left. right. left. exists t0, z. rewrite <- (C5 t0 E). auto. }
-  assert (Hn2 : n2 k = 0%nat) by (unfold ImplVal1.n2; now rewrite Hsingle).
   assert (Hlen : length (ti_slots tn) = (n1 k + n2 k)%nat) by (cbn [tn ti_with_wait ti_with_slots ti_slots]; unfold initial_slots; now rewrite repeat_length).
   assert (Hnone : forall i, (i < n1 k + n2 k)%nat -> nth_error (ti_slots tn) i = Some None).
   { intros i Hi. cbn [tn ti_with_wait ti_with_slots ti_slots]. unfold initial_slots. now apply nth_error_repeat_none. }
@@ -236,7 +240,7 @@ Proof.
     + intros y Ho. destruct (O2 y Ho) as [Hold|Hn].
       * destruct (T4 y Hold) as [Hw Hsg]. split; auto. intros t0 Ht0 Hor. destruct (Hw t0 Ht0 Hor) as (H1 & z & Hz & Hl). split; auto. exists z. split; auto.
         rewrite C5; auto. intros ->. congruence.
-      * split; [|now apply (in_group_reqs_single k)]. destruct (in_group_reqs rules env ord F rank k y Hn) as (Htk & Hwf). intros t0 Ht0 Hor. rewrite Htk in Ht0. inversion Ht0. subst t0.
+      * destruct (in_group_reqs rules env ord F rank k y Hn) as (Htk & Hwf). split; [|intros t0 Ht0 Hor Hu0; rewrite Htk in Ht0; inversion Ht0; subst t0; now apply (in_group_reqs_used k)]. intros t0 Ht0 Hor. rewrite Htk in Ht0. inversion Ht0. subst t0.
         destruct (Hwf Hor) as (H1 & H2). split; auto. exists tn. split; auto. lia.
     + intros y. rewrite Hf. intros Hin. now apply Hcu, T5.
     + intros t0 y Hy. destruct (N.eq_dec t0 k) as [->|E].
@@ -245,15 +249,16 @@ Proof.
         -- intros i v x Hv. destruct (Nat.lt_ge_cases i (n1 k + n2 k)) as [Hi|Hi]; [rewrite (Hnone i Hi) in Hv; discriminate|].
            assert (Hn0 : nth_error (ti_slots tn) i = None) by (apply nth_error_None; lia). congruence.
         -- intros i Hu' Hn0. assert (Hi : (i < n1 k + n2 k)%nat) by (rewrite <- Hlen; apply nth_error_Some; congruence).
+           assert (Hi1 : (i < n1 k)%nat) by (unfold used in Hu'; lia).
            destruct (key_of_slot k i) as [x|] eqn:Ex.
-           ++ exists (mkIReq (Some k) i x false false). cbn [iq_task iq_order iq_slot]. repeat split; auto. left. left. rewrite C7. apply in_or_app. right. apply Hwit; auto. lia.
+           ++ exists (mkIReq (Some k) i x false false). cbn [iq_task iq_order iq_slot]. repeat split; auto. left. left. rewrite C7. apply in_or_app. right. apply Hwit; auto.
            ++ unfold ImplVal1.key_of_slot in Ex. assert (Hlt : Nat.ltb i (n1 k) = true) by (apply Nat.ltb_lt; lia). rewrite Hlt in Ex.
-              apply nth_error_None in Ex. unfold ImplVal1.n1 in Hi. lia.
+              apply nth_error_None in Ex. unfold ImplVal1.n1 in Hi1. lia.
         -- intros _ i a b _ Hi. apply Hnone. lia.
         -- cbn [tn ti_with_wait ti_with_slots ti_pending new_tinfo]. discriminate.
         -- rewrite Hft. intros H. contradiction.
-        -- rewrite Hlen. intros i x Hi Hx. left. exists (mkIReq (Some k) i x false false). cbn [iq_task iq_order iq_slot]. repeat split; auto.
-           left. rewrite C7. apply in_or_app. right. apply Hwit; auto. lia.
+        -- rewrite Hlen. intros i x Hu0 Hi Hx. assert (Hi1 : (i < n1 k)%nat) by (unfold used in Hu0; lia). left. exists (mkIReq (Some k) i x false false). cbn [iq_task iq_order iq_slot]. repeat split; auto.
+           left. rewrite C7. apply in_or_app. right. apply Hwit; auto.
         -- rewrite Hdk. intros d [].
         -- rewrite Hdk. intros d [].
         -- reflexivity.
@@ -265,7 +270,7 @@ Proof.
         -- exact J4.
         -- exact J5.
         -- rewrite Hft, Hst. exact J6.
-        -- intros i z Hi Hz. rewrite (Hdp t0 E). destruct (J7 i z Hi Hz) as [(w & Hw1 & Hw2)|Hr]; [left; exists w; split; auto|now right].
+        -- intros i z Hu0 Hi Hz. rewrite (Hdp t0 E). destruct (J7 i z Hu0 Hi Hz) as [(w & Hw1 & Hw2)|Hr]; [left; exists w; split; auto|now right].
         -- rewrite (Hdp t0 E). intros d Hd. destruct (J8 d Hd) as [H|(w & Hw1 & Hw2)]; [left; now apply Hcu|right; exists w; split; auto].
         -- rewrite (Hdp t0 E). exact J9.
         -- exact J10.
@@ -279,9 +284,8 @@ Proof.
     + intros k'. rewrite RI. destruct (N.eqb k' k); [reflexivity|apply (b_nc _ _ _ HC)].
     + intros k' E. apply N.eqb_neq in E. now apply HRo.
     + intros k' E. apply N.eqb_eq in E. subst k'. split; [unfold unsettled; rewrite Hk; repeat split; discriminate|].
-      split; [unfold is_in_progress; now rewrite HK, N.eqb_refl|]. unfold bAt. rewrite HRk. split; [reflexivity|]. split.
-      * intros Hb. apply (b_sig _ _ _ HC). exact Hb.
-      * rewrite Hdk. intros d [].
+      split; [unfold is_in_progress; now rewrite HK, N.eqb_refl|]. unfold bAt. rewrite HRk. split; [reflexivity|].
+      intros Hb. apply (b_sig _ _ _ HC). exact Hb.
     + intros k' E. apply N.eqb_eq in E. subst k'. left. unfold cAt. rewrite Hst, HRk. auto.
   - apply (BS_change rules env F rank (fun k' => N.eqb k' k) None su su1); auto.
     + intros k' E. apply N.eqb_neq in E. now apply HRo.
@@ -346,6 +350,8 @@ Proof.
   assert (Hca : forall k, cAt s' k = cAt su k) by (intros k; unfold cAt; now rewrite (proj1 (HR k))).
   assert (Hba : forall k, bAt s' k = bAt su k) by (intros k; unfold bAt; now rewrite (proj1 (HR k))).
   assert (Hdp : forall k, deps s' k = deps su k) by (intros k; unfold deps; now rewrite (proj1 (HR k))).
+  assert (HdpC : forall k, deps s' k = deps su k \/ (deps s' k = drop_single (deps su k) /\ ~ curk s' k /\ bAt s' k = bAt su k)) by (intros; left; apply Hdp).
+  assert (HdpS : forall k, kind_of su k = KScanning \/ kind_of su k = KDoesNotNeedToRun -> deps s' k = deps su k) by (intros; apply Hdp).
   assert (HK : forall k, kind_of s' k = kind_of su k) by (intros k; apply HR).
   assert (Hcu : forall k, curk s' k <-> curk su k) by (intros k; apply curk_same; auto; apply HR).
   split; [|split].
@@ -467,10 +473,10 @@ Proof.
       constructor; rewrite ?E1, ?E2, ?E3, ?E4; auto.
       * intros i Hu' Hn0. destruct (K3 i Hu' Hn0) as (w & Hw1 & Hw2). exists w. split; auto.
       * rewrite Hft, Hst. exact K6.
-      * intros i w Hi Hw. destruct (K7 i w Hi Hw) as [(r & Hr1 & Hr2 & Hr3 & Hr4)|Hr].
+      * intros i w Hu0 Hi Hw. destruct (K7 i w Hu0 Hi Hw) as [(r & Hr1 & Hr2 & Hr3 & Hr4)|Hr].
         -- destruct (HU1 r Hr1) as [->|Hr']; [|left; exists r; auto].
            right. rewrite Et in Hr2. inversion Hr2. subst t0. rewrite Hdt. apply in_or_app. right. left.
-           destruct (Hwf t Et Hr3) as (Hkey & _). rewrite Hr4 in Hkey. rewrite Hw in Hkey. inversion Hkey. unfold dn. now rewrite Hr3, Hsg.
+           destruct (Hwf t Et Hr3) as (Hkey & _). rewrite Hr4 in Hkey. rewrite Hw in Hkey. inversion Hkey. unfold dn. rewrite Hr3, (Hsg t Et Hr3); [reflexivity|]. now rewrite Hr4.
         -- right. destruct (N.eq_dec t0 t) as [->|E]; [rewrite Hdt; apply in_or_app; now left|now rewrite (Hdp t0 E)].
       * intros d Hd. assert (Hold : In d (deps su t0) -> curk s' (d_key d) \/ exists r, Oreq2 s' r /\ iq_task r = Some t0 /\ iq_input r = d_key d).
         { intros Hd0. destruct (K8 d Hd0) as [H|(r & Hr1 & Hr2)]; [left; now apply Hcu|right; exists r; split; auto]. }
@@ -489,8 +495,7 @@ Proof.
     + intros k. rewrite (proj2 (proj2 (HL k))). apply (b_nc _ _ _ HC).
     + intros k E. apply N.eqb_neq in E. now apply HRo.
     + intros k E. apply N.eqb_eq in E. subst k. split; [now apply in_progress_unsettled|]. split; [now rewrite (in_progress_of_kind su s' t (HK t))|].
-      split; [apply Hba|]. split; [rewrite Hba, Hsgs; apply (b_sig _ _ _ HC)|].
-      rewrite Hdt. intros d Hd. apply in_app_or in Hd. destruct Hd as [Hd|[Hd|[]]]; [now apply (b_ns _ _ _ HC t)|subst d; exact Hsg].
+      split; [apply Hba|]. rewrite Hba, Hsgs; apply (b_sig _ _ _ HC).
   - apply (BS_change rules env F rank (fun k => N.eqb k t) None su s'); auto.
     + intros k E. apply N.eqb_neq in E. now apply HRo.
     + intros k E. apply N.eqb_eq in E. subst k. split; [now apply in_progress_unsettled|now rewrite (in_progress_of_kind su s' t (HK t))].
@@ -516,6 +521,8 @@ Proof.
   assert (Hca : forall k, cAt s' k = cAt su k) by (intros k; unfold cAt; now rewrite HR).
   assert (Hba : forall k, bAt s' k = bAt su k) by (intros k; unfold bAt; now rewrite HR).
   assert (Hdp : forall k, deps s' k = deps su k) by (intros k; unfold deps; now rewrite HR).
+  assert (HdpC : forall k, deps s' k = deps su k \/ (deps s' k = drop_single (deps su k) /\ ~ curk s' k /\ bAt s' k = bAt su k)) by (intros; left; apply Hdp).
+  assert (HdpS : forall k, kind_of su k = KScanning \/ kind_of su k = KDoesNotNeedToRun -> deps s' k = deps su k) by (intros; apply Hdp).
   assert (Hcu : forall k, curk s' k <-> curk su k) by (intros k; apply curk_same; auto).
   assert (Htask : forall t, task_of s' t = task_of su t) by (intros; unfold task_of; now rewrite Htk).
   split; [|split].
